@@ -98,6 +98,7 @@ struct WRec {
     idx: usize,
     cenc_null: bool,
     tl: Option<usize>,
+    cl: Option<usize>,
     md5: Option<String>,
     plan: PlanSpec,
     st: PS,
@@ -171,6 +172,7 @@ impl ObjectWriterBuilder for Builder {
                     idx,
                     cenc_null: meta.cenc == Some(Cenc::Null),
                     tl: meta.transfer_length,
+                    cl: meta.content_length,
                     md5: meta.md5.clone(),
                     plan,
                     st: PS::Idle,
@@ -234,10 +236,18 @@ impl Mon {
             }
         }
         if kind == 'C' {
-            let (tl, md5, check, written) = {
+            let (tl, md5, check, written, cl) = {
                 let w = &self.writers[id];
-                (w.tl, w.md5.clone(), w.plan.md5, w.written.clone())
+                (w.tl, w.md5.clone(), w.plan.md5, w.written.clone(), w.cl)
             };
+            if let Some(cl) = cl {
+                if cl != written.len() && tl != Some(0) {
+                    self.fail(
+                        "C09:complete-content-length",
+                        format!("writer {}.{}: complete after {} bytes although Content-Length {} was announced", toi, idx, written.len(), cl),
+                    );
+                }
+            }
             if cenc_null && tl != Some(written.len()) {
                 self.fail(
                     "C09:complete-length",
